@@ -393,6 +393,7 @@ def C04():
         jobs.append(Kani(h, claim, tiers=("quick", "thorough") if q else ("thorough",), bounds={"depth": "one component/trame"}, symbolic=["all numeric fields", "payload bytes"],
                          functions=["constructor + Message::write"], timeout=1500, mem_gb=12))
     jobs.append(MirJob("c04_mir_ntlm_authenticate_layout", "NTLM AUTHENTICATE token: every (Len, MaxLen, BufferOffset) addresses its field for all field lengths < 65536 and all flags; Version field consistent with the offset base (shared with C15)", mirjobs.authenticate_layout))
+    jobs.append(MirJob("c04_mir_info_packet_counts", "Client Info: cbDomain/cbUserName/cbPassword equal the byte size of the UTF-16 buffers actually sent minus the 2-byte terminator, for every string (SMT on the lengths)", mirjobs.info_packet_counts))
     jobs.append(MirJob("c04_mir_core_data_name", "gcc::client_core_data: the clientName computation has no reachable panicking slice/index/unwrap and no failing arithmetic for any name (length symbolic)",
                        mirjobs.multi(mirjobs.panic_sites([(r"^client_core_data$", [(r"Option::<ClientData>::unwrap_or$", 1, "default parameters")])], {r"^client_core_data$": mirjobs.CORE_DATA_NATIVE}),
                                      mirjobs.fn_asserts(r"^client_core_data$", "client name length", loop_bound=0), mirjobs.core_data_units)))
